@@ -1,9 +1,18 @@
 use std::io::Result as IoResult;
 use std::io::{Read, Write};
 
+#[cfg(not(tiny_http_verif))]
 use std::sync::mpsc::channel;
+#[cfg(not(tiny_http_verif))]
 use std::sync::mpsc::{Receiver, Sender};
+#[cfg(not(tiny_http_verif))]
 use std::sync::{Arc, Mutex};
+#[cfg(tiny_http_verif)]
+use tiny_http_verif_rt::sync::mpsc::channel;
+#[cfg(tiny_http_verif)]
+use tiny_http_verif_rt::sync::mpsc::{Receiver, Sender};
+#[cfg(tiny_http_verif)]
+use tiny_http_verif_rt::sync::{Arc, Mutex};
 
 use std::mem;
 
